@@ -10,9 +10,10 @@ invariance over the recorded history; stable shortest-first order; the report
 is a str naming every failing path.
 """
 from .. import gen as G
-from ..common import Report, stream, digest, order_to_decisions
+from ..common import Report, stream, digest, order_to_decisions, big
 from ..engine import Engine, Monitor, Scripted
 from ..ops import canon_rt
+from ..edits import gen_edit, apply_edit
 from ..terms import World, snap
 
 PID = "C06"
@@ -26,12 +27,17 @@ def generate(seed):
     d0 = g.top_doc()
     docs = [d0] + [g.variant(d0) for _ in range(r.randint(1, 3))]
     ctx = g.context(docs)
-    n_rules = r.choice([0, 1, 2, 2, 3, 3, 4, 5, 6])
+    n_rules = r.choice([0, 1, 2, 2, 3, 3, 4, 5, 6]) + (r.randint(1, 4) if big(r) else 0)
     rules = []
     for _ in range(n_rules):
         if rules and r.random() < 0.12:
             rules.append(r.choice(rules))  # a duplicate rule (equal, distinct object)
             continue
+        if rules and r.random() < 0.15:
+            nd = _near_duplicate(r, r.choice(rules))
+            if nd is not None:
+                rules.append(nd)  # same condition, path differing in one int part only
+                continue
         t = g.rule(ctx, cast_ok=False, mods=True)
         rules.append(("rule", t[1], t[2], None, t[4]))
     idx = list(range(n_rules))
@@ -54,8 +60,13 @@ def generate(seed):
         pairs += r.sample(pairs, min(len(pairs), 3))  # some repeated validations
     programs = [[] for _ in range(n_callers)]
     order = []
+    p_edit = r.choice([0.0, 0.0, 0.1, 0.25])
     for si, di in pairs:
         c = r.randrange(n_callers)
+        if r.random() < p_edit:
+            # the caller changes their own document between two validations
+            programs[c].append(("edit", di, gen_edit(r, g, docs[di])))
+            order.append(c)
         programs[c].append(("validate", si, di))
         order.append(c)
     return {
@@ -66,6 +77,20 @@ def generate(seed):
         "programs": programs,
         "decisions": order_to_decisions(order),
     }
+
+
+def _near_duplicate(r, rule):
+    path = rule[1]
+    if path[0] != "path":
+        return None
+    idx = [i for i, p in enumerate(path[1]) if p[0] == "prim" and isinstance(p[1], int) and not isinstance(p[1], bool)]
+    if not idx:
+        return None
+    i = r.choice(idx)
+    old = path[1][i][1]
+    new = r.choice([x for x in (0, 1, 2) if x != old])
+    parts = path[1][:i] + (("prim", new),) + path[1][i + 1 :]
+    return ("rule", ("path", parts) + tuple(path[2:]), rule[2], None, rule[4])
 
 
 # --------------------------------------------------------------------------
@@ -85,6 +110,12 @@ def core_rt(rt):
 
 
 def exec_op(world, op):
+    if op[0] == "edit":
+        _, di, edit = op
+        apply_edit(world.get("docs", di), edit)
+        world.state["edits"].setdefault(di, []).append(edit)
+        world.monitor.rebaseline()
+        return ("ok", "edited")
     _, si, di = op
     try:
         vd = world.get("schemas", si).validate(world.get("docs", di))
@@ -99,11 +130,15 @@ def reference(world, ri, di):
     """Verdict of ONE rule on one document: a fresh Rule built from the term,
     tested alone."""
     st = world.state
-    key = (ri, di)
+    edits = st["edits"].get(di, ())
+    key = (ri, di, len(edits))
     if key not in st["ref"]:
         fresh = World(world.term)
         try:
-            rt = fresh.get("rules", ri).test(fresh.get("docs", di))
+            doc = fresh.get("docs", di)
+            for e in edits:
+                apply_edit(doc, e)
+            rt = fresh.get("rules", ri).test(doc)
             st["ref"][key] = ("ok", core_rt(rt))
         except Exception as e:
             st["ref"][key] = ("raise", type(e).__name__)
@@ -114,8 +149,10 @@ def on_boundary(eng, c, k, op, out):
     world = eng.world
     st = world.state
     term = world.term
-    _, si, di = op
     vio = []
+    if op[0] == "edit":
+        return vio
+    _, si, di = op
     schema = world.get("schemas", si)
     supplied = term["schemas"][si][1]
     ids = st["rule_ids"]
@@ -134,7 +171,7 @@ def on_boundary(eng, c, k, op, out):
     refs = [reference(world, ri, di) for ri in model]
     if any(rf[0] == "raise" for rf in refs):
         st["skipped_raising_rule"] += 1
-        st["history"].append((si, di, None))
+        st["history"].append((si, di, 0, None))
         return vio
     last = st["last"]
     if last[0] == "raise":
@@ -186,6 +223,14 @@ def on_boundary(eng, c, k, op, out):
     if not isinstance(report, str):
         vio.append(dict(oracle="report_not_str", locus="valid" if exp_valid else "invalid", detail={"op": op, "got": repr(report)[:200]}))
         return vio
+    # asking for the report again gives the same text
+    try:
+        report2 = vd.get_failures_string()
+    except Exception as e:
+        report2 = ("raise", type(e).__name__)
+    if report2 != report:
+        vio.append(dict(oracle="report_not_repeatable", locus="valid" if exp_valid else "invalid", detail={"op": op, "first": report[:300], "second": repr(report2)[:300]}))
+        return vio
     pairs = []
     for ri, rt in zip(model, vd.rule_tests):
         # the per-rule report, too, is a str naming the rule's failing paths
@@ -205,7 +250,7 @@ def on_boundary(eng, c, k, op, out):
             if repr(f.path) not in report:
                 vio.append(dict(oracle="report_omits_path", locus="failing_path", detail={"op": op, "path": repr(f.path), "report": report[:600]}))
                 return vio
-    st["history"].append((si, di, (exp_valid, exp_fail, exp_tested, tuple(sorted(pairs, key=repr)))))
+    st["history"].append((si, di, len(st["edits"].get(di, ())), (exp_valid, exp_fail, exp_tested, tuple(sorted(pairs, key=repr)))))
     return vio
 
 
@@ -224,6 +269,7 @@ def run(case):
         "rule_ids": {id(world.get("rules", i)): i for i in range(len(term["rules"]))},
         "path_len": [len(world.get("rules", i).path) for i in range(len(term["rules"]))],
         "ref": {},
+        "edits": {},
         "last": None,
         "history": [],
         "checked_order": 0,
@@ -231,18 +277,20 @@ def run(case):
         "checked_report": 0,
         "skipped_raising_rule": 0,
     }
+    world.monitor = mon
     eng = Engine(world, case["programs"], exec_op, mon, Scripted(case["decisions"]), mode="op", on_boundary=on_boundary)
     eng.run()
     st = world.state
     # (iii) permutation / order invariance over the recorded history
     by_doc = {}
     perms_seen = {}
-    for si, di, agg in st["history"]:
+    for si, di, epoch, agg in st["history"]:
         if agg is None:
             continue
         perms_seen.setdefault(di, set()).add(term["schemas"][si][1])
-        # schemas with an extra duplicate of a rule are a different rule multiset
-        mkey = (di, tuple(sorted(term["schemas"][si][1])))
+        # schemas with an extra duplicate of a rule are a different rule multiset;
+        # a document edited by its owner is a different document
+        mkey = (di, epoch, tuple(sorted(term["schemas"][si][1])))
         if mkey in by_doc and by_doc[mkey][1] != agg:
             a, b = by_doc[mkey][1], agg
             field = next(n for n, x, y in zip(("is_valid", "num_failures", "num_rules_tested", "failing_pairs"), a, b) if x != y)
@@ -256,13 +304,14 @@ def run(case):
     n_perm = len({s[1] for s in term["schemas"]})
     key = digest((term, case["programs"], case["decisions"]))
     n_rules = len(term["rules"])
-    any_invalid = any(agg is not None and not agg[0] for _s, _d, agg in st["history"])
+    any_invalid = any(agg is not None and not agg[0] for _s, _d, _e, agg in st["history"])
     stats = {
         "runs": 1,
         "ops": sum(len(p) for p in case["programs"]),
         "steps": eng.step,
         "validations": len(st["history"]),
-        "validations_invalid_verdict": sum(1 for _s, _d, agg in st["history"] if agg is not None and not agg[0]),
+        "validations_invalid_verdict": sum(1 for _s, _d, _e, agg in st["history"] if agg is not None and not agg[0]),
+        "caller_side_document_edits": sum(len(v) for v in st["edits"].values()),
         "validations_skipped_rule_raises": st["skipped_raising_rule"],
         "order_checks": st["checked_order"],
         "conservation_checks": st["checked_conservation"],
